@@ -33,7 +33,7 @@ func (e *C11) Plan(tier string, seed uint64) int {
 	if tier == "thorough" {
 		return 150000
 	}
-	return 10000
+	return 40000
 }
 func (e *C11) MinNontrivial(tier string) int { return 100 }
 
